@@ -310,6 +310,14 @@ Lemma pmA_not_creq : forall r q m, pmA r q m -> m_src m = PRIMARY_SRC.
 Proof. intros r q m H. apply H. Qed.
 
 
+(* InvA does not look at fs, clientOutput, hist *)
+Lemma invA_proj_eq : forall s s1, InvA s ->
+  net s1 = net s -> fdv s1 = fdv s -> prim s1 = prim s -> cin s1 = cin s -> cl s1 = cl s -> rl s1 = rl s -> InvA s1.
+Proof.
+  intros s s1 I H1 H2 H3 H4 H5 H6. destruct s, s1. cbn in *. subst.
+  destruct I as [A1 A2 A3 A4 A5 A6 A7 A8]. constructor; auto.
+Qed.
+
 Ltac split_loc := unfold locA; split; [|split; [|split; [|split; [|split; [|split; [|split]]]]]].
 Ltac loc_triv :=
   simp_st; auto;
@@ -483,11 +491,11 @@ Proof.
   unfold step_rcvSyncRespLoop in Hs.
   destruct (r_replicaSet (rl s p)) as [|x0 S0] eqn:ES.
   { inversion Hs; subst s'. apply invA_set_rl; auto. split_loc; loc_triv.
-    - intros H; exfalso; apply H; exact Hq.
-    - intros [H|[H|[H H']]]; try discriminate H. congruence. }
+    all: try (intros H; exfalso; apply H; exact Hq).
+    all: try (intros [H|[H|[H H']]]; try discriminate H; congruence). }
   destruct (ch_alt ch); cbn [negb] in Hs.
   { dif Hs; [discriminate|]. dif Hs; [|discriminate]. inversion Hs; subst s'.
-    apply invA_set_rl; auto. split_loc; loc_triv. intros H; exfalso; apply H; exact Hq. }
+    apply invA_set_rl; auto. split_loc; loc_triv. all: try (intros H; exfalso; apply H; exact Hq). }
   unfold link_recv in Hs. dif Hs; [discriminate|].
   destruct (queue (net s p RESP)) as [|m rest] eqn:Eq; [discriminate|].
   dif Hs; [discriminate|].
@@ -504,16 +512,468 @@ Proof.
     assert (Ix : InvA (set_rl (set_net s (upd_net (net s) p RESP (mkLink rest true))) p
               (r_set_pc (r_set_idx (r_set_rs (r_set_lpb (rl s p) (m_body m)) (others cfg p)) 1) SndSyncReqLoop))).
     { eapply invA_pop; eauto; [|discriminate]. intros s1 _. split_loc; loc_triv.
-      - intros H; exfalso; apply H; exact Hq.
-      - intros H; exfalso; apply H; exact Hq.
-      - intros _. split; [reflexivity | intros H; exfalso; apply H; reflexivity].
-      - destruct (m_body m); cbn in Erv; try discriminate. eauto. }
+      all: try (intros H; exfalso; apply H; exact Hq).
+      all: try (intros _; split; [reflexivity | intros H; exfalso; apply H; reflexivity]).
+      all: try (destruct (m_body m); cbn in Erv; try discriminate; eauto). }
     destruct Ix. constructor; auto.
   - inversion Hs; subst s'; clear Hs.
     eapply invA_pop; eauto; [|discriminate]. intros s1 _. split_loc; loc_triv.
-    intros H; exfalso; apply H; exact Hq.
+    all: try (intros H; exfalso; apply H; exact Hq).
+Qed.
+
+
+Lemma invA_rcvMsg : pcr s p = RcvMsg -> step_rcvMsg cfg ch s p = Ok s' -> InvA s'.
+Proof.
+  intros Epc Hs. unfold pcr in Epc.
+  destruct (a_loc s I p Ap) as (L1 & L2 & L3 & L4 & L5 & L6 & L7 & L8).
+  unfold step_rcvMsg in Hs.
+  destruct (Nat.eqb (leader cfg s) p && r_shouldSync (rl s p)) eqn:E.
+  { inversion Hs; subst s'. apply andb_true_iff in E. destruct E as [E1 E2].
+    apply invA_set_rl; auto. split_loc; loc_triv.
+    intros _. destruct L5 as [H1 H2]; [right; right; split; assumption|]. split; [exact H1|]. intros _. apply H2. rewrite Epc. discriminate. }
+  unfold link_recv in Hs. dif Hs; [discriminate|].
+  destruct (queue (net s p REQ)) as [|m rest] eqn:Eq; [discriminate|].
+  dif Hs; [discriminate|].
+  change (leader cfg (set_net s (upd_net (net s) p REQ (mkLink rest (enabled (net s p REQ)))))) with (leader cfg s) in Hs.
+  assert (Hen : enabled (net s p REQ) = true) by (apply negb_false_iff in E0; exact E0).
+  rewrite Hen in Hs.
+  destruct (a_q s I p Ap) as (Sh & _ & _). rewrite Eq in Sh.
+  destruct (shape_tail _ _ _ _ Sh) as [Sh' Hm].
+  destruct (Nat.eqb (leader cfg s) p && srct_eqb (m_src m) CLIENT_SRC) eqn:E2; inversion Hs; subst s'; clear Hs.
+  - apply andb_true_iff in E2. destruct E2 as [E3 E4]. apply Nat.eqb_eq in E3.
+    assert (Hc : creq m /\ Forall creq rest).
+    { destruct Hm as [Hm | (Hm & _ & Hr)]; [|split; assumption]. exfalso. destruct Hm as (Hsrc & _). rewrite Hsrc in E4. discriminate. }
+    destruct Hc as [Hc Hr].
+    assert (Hss : r_shouldSync (rl s p) = false).
+    { apply andb_false_iff in E. destruct E as [E|E]; [|exact E]. apply Nat.eqb_neq in E. congruence. }
+    eapply invA_pop; eauto. intros s1 Hs1. split_loc; loc_triv.
+    all: try (intros H; exfalso; apply H; symmetry; exact E3).
+    intros _. exists m. split; [reflexivity|]. split; [exact Hc|]. split; [exact Hss|]. rewrite Hs1. exact Hr.
+  - assert (Hp : pmA p (ldr s) m).
+    { destruct Hm as [Hm | (Hm & Hpq & _)]; [exact Hm|]. exfalso.
+      apply andb_false_iff in E2. destruct E2 as [E2|E2].
+      - apply Nat.eqb_neq in E2. apply E2. symmetry. exact Hpq.
+      - destruct Hm as (Hsrc & _). rewrite Hsrc in E2. discriminate. }
+    eapply invA_pop; eauto. intros s1 Hs1. split_loc; loc_triv.
+    intros _. exists m. split; [reflexivity | exact Hp].
+Qed.
+
+
+(* handleBackup: the common tail (response to the sender of the request, or skip it when the sender is detected dead) *)
+Lemma invA_hb_finish : forall m l1 rb rt,
+  pcr s p = HandleBackup -> pmA p (ldr s) m ->
+  r_shouldSync l1 = true -> (exists ver c, r_lastPutBody l1 = BPut ver c) ->
+  (rt = PUT_RESP \/ (rt = SYNC_RESP /\ exists ver c, rb = BPut ver c)) ->
+  (if negb (ch_alt ch)
+   then match link_send s (m_from m) RESP (mkMsg p (m_from m) rb BACKUP_SRC rt (m_id m)) with
+        | None => Blocked
+        | Some s2 => Ok (set_rl s2 p (r_set_pc l1 ReplicaLoop))
+        end
+   else if fdv s (m_from m) then Ok (set_rl s p (r_set_pc l1 ReplicaLoop)) else Blocked) = Ok s' ->
+  InvA s'.
+Proof.
+  intros m l1 rb rt Epc Hpm Hss HL Hrt Hs. unfold pcr in Epc.
+  assert (Hloc : forall s1, locA s1 (ldr s) p (r_set_pc l1 ReplicaLoop)).
+  { intros s1. split_loc; loc_triv. }
+  destruct (ch_alt ch); cbn [negb] in Hs.
+  { destruct (fdv s (m_from m)); [|discriminate]. inversion Hs; subst s'. apply invA_set_rl; auto. }
+  unfold link_send in Hs. destruct (enabled (net s (m_from m) RESP)) eqn:Een; [|discriminate].
+  inversion Hs; subst s'; clear Hs.
+  destruct Hpm as (Hsrc & Htyp & Hf1 & Hfq & Hfp & Hbody).
+  set (x := m_from m) in *.
+  assert (Hqr : isrep (ldr s)).
+  { destruct (alive_ge_ldr s p I Ap) as [Hn _]. apply (ldr_nonzero s I Hn). }
+  assert (Hx : isrep x) by (unfold isrep in *; lia).
+  assert (Ax : alive s x) by (eapply enabled_alive; eauto).
+  assert (Hxq : x = ldr s).
+  { destruct (alive_ge_ldr s x I Ax) as [_ H]. lia. }
+  apply (invA_same_roles s); simp_st; try apply I; try reflexivity.
+  - intros r c0. unfold upd_net. destruct (Nat.eqb r x && chan_eqb c0 RESP) eqn:E; [|reflexivity].
+    apply andb_true_iff in E. destruct E as [E1 E2]. apply Nat.eqb_eq in E1. subst r. destruct c0; [discriminate|]. simp_st. rewrite Een. reflexivity.
+  - intros r. unfold pcr. simp_st. unfold updf. destruct (Nat.eqb r p) eqn:E; [|reflexivity].
+    apply Nat.eqb_eq in E. subst r. simp_st. rewrite Epc. reflexivity.
+  - intros r. unfold pcr. simp_st. unfold updf. destruct (Nat.eqb r p) eqn:E; [|reflexivity].
+    apply Nat.eqb_eq in E. subst r. simp_st. rewrite Epc. reflexivity.
+  - intros r Ar. destruct (Nat.eq_dec r p) as [->|Hne].
+    + rewrite updf_same. split; [apply Hloc|].
+      eapply qA_frame; [apply (a_q s I p Ap)| |]; simp_st; rewrite upd_net_other by solve_ne; reflexivity.
+    + rewrite updf_other by exact Hne. destruct (Nat.eq_dec r x) as [->|Hnx].
+      * split.
+        -- eapply locA_frame; [apply (a_loc s I x Ax)|]. simp_st. intros _ H. rewrite upd_net_other by (right; discriminate). exact H.
+        -- destruct (a_q s I x Ax) as (Sh & Rn & Rl). unfold qA. simp_st.
+           rewrite upd_net_same, upd_net_other by (right; discriminate). simp_st.
+           split; [exact Sh|]. split; [intros H; contradiction|]. intros _.
+           apply Forall_app. split; [apply Rl; exact Hxq|]. constructor; [|constructor].
+           unfold rmA. simp_st. split; [destruct Ap as [[? ?] _]; lia|].
+           destruct Hrt as [-> | (-> & Hb)]; [right; reflexivity | left; split; [reflexivity | exact Hb]].
+      * split.
+        -- eapply locA_frame; [apply (a_loc s I r Ar)|]. simp_st. intros _ H. rewrite upd_net_other by (left; exact Hnx). exact H.
+        -- eapply qA_frame; [apply (a_q s I r Ar)| |]; simp_st; rewrite upd_net_other by (left; exact Hnx); reflexivity.
 Qed.
 
 End LABELS.
+
+Lemma invA_set_fs : forall s f, InvA s -> InvA (set_fs s f).
+Proof. intros s f I. eapply invA_proj_eq; [exact I | reflexivity..]. Qed.
+
+Lemma alive_set_fs : forall s f r, alive (set_fs s f) r <-> alive s r.
+Proof. intros. unfold alive, pcr. simp_st. tauto. Qed.
+
+Section LABELS2.
+Variables (s : state) (p : node) (ch : choice) (s' : state).
+Hypothesis I : InvA s.
+Hypothesis Ap : alive s p.
+
+Lemma invA_handleBackup : pcr s p = HandleBackup -> step_handleBackup cfg ch s p = Ok s' -> InvA s'.
+Proof.
+  intros Epc Hs.
+  destruct (a_loc s I p Ap) as (L1 & L2 & L3 & L4 & L5 & L6 & L7 & L8).
+  destruct (L2 Epc) as (m & Hreq & Hpm).
+  unfold step_handleBackup in Hs. rewrite Hreq in Hs. cbn [bindT] in Hs.
+  pose proof Hpm as (Hsrc & Htyp & Hf1 & Hfq & Hfp & ver & c & Hb).
+  rewrite Hsrc in Hs. cbn [srct_eqb negb] in Hs.
+  destruct Htyp as [Ht|Ht]; rewrite Ht, Hb in Hs; cbn [body_key body_value body_ver bindT] in Hs.
+  - (* PUT_REQ *)
+    destruct c as [[k v]|]; cbn [bindT] in Hs; [|discriminate].
+    destruct (body_ver (r_lastPutBody (rl s p))) as [lv|]; cbn [bindT] in Hs; [|discriminate].
+    dif Hs; [discriminate|]. cbn [r_respBody r_respTyp r_set_sync r_set_resp r_set_lpb bindT] in Hs.
+    eapply (invA_hb_finish (set_fs s (upd_fs (fsv s) p k v)) p ch s'); try exact Hs.
+    + apply invA_set_fs. exact I.
+    + apply alive_set_fs. exact Ap.
+    + exact Epc.
+    + exact Hpm.
+    + reflexivity.
+    + simp_st. eauto.
+    + left. reflexivity.
+  - (* SYNC_REQ *)
+    destruct (body_ver (r_lastPutBody (rl s p))) as [lv|]; cbn [bindT] in Hs; [|discriminate].
+    destruct L8 as (ver0 & c0 & HL0).
+    destruct (lv <? ver).
+    + destruct c as [[k v]|]; cbn [bindT] in Hs; [|discriminate].
+      cbn [r_respBody r_respTyp r_set_sync r_set_resp r_set_lpb r_lastPutBody bindT] in Hs.
+      eapply (invA_hb_finish (set_fs s (upd_fs (fsv s) p k v)) p ch s'); try exact Hs.
+      * apply invA_set_fs. exact I.
+      * apply alive_set_fs. exact Ap.
+      * exact Epc.
+      * exact Hpm.
+      * reflexivity.
+      * simp_st. eauto.
+      * right. split; [reflexivity | eauto].
+    + cbn [r_respBody r_respTyp r_set_sync r_set_resp r_set_lpb r_lastPutBody bindT] in Hs.
+      eapply (invA_hb_finish s p ch s'); try exact Hs; auto.
+      * simp_st. eauto.
+      * right. split; [reflexivity | eauto].
+Qed.
+
+
+Lemma creq_cases : forall m, creq m ->
+  (m_typ m = GET_REQ /\ exists k, m_body m = BReq k None) \/
+  (m_typ m = PUT_REQ /\ exists k v, m_body m = BReq k (Some v)).
+Proof.
+  intros m (_ & _ & H). unfold input_ok in H. simp_st.
+  destruct (m_typ m); try contradiction; destruct (m_body m) as [k [v|]| |]; try contradiction; eauto.
+Qed.
+
+Lemma invA_handlePrimary : pcr s p = HandlePrimary -> step_handlePrimary cfg ch s p = Ok s' -> InvA s'.
+Proof.
+  intros Epc Hs. unfold pcr in Epc.
+  destruct (a_loc s I p Ap) as (L1 & L2 & L3 & L4 & L5 & L6 & L7 & L8).
+  assert (Hq : p = ldr s).
+  { apply (nonbackup_is_ldr s p I Ap). unfold pcr. rewrite Epc. cbn. tauto. }
+  destruct L3 as (m & Hreq & Hm & Hss & Hqc); [rewrite Epc; exact Logic.I|].
+  unfold step_handlePrimary in Hs. rewrite Hreq in Hs. cbn [bindT] in Hs.
+  pose proof Hm as (Hsrc & Hfrom & Hok). rewrite Hsrc in Hs. cbn [srct_eqb negb] in Hs.
+  destruct (creq_cases m Hm) as [(Ht & k & Hb) | (Ht & k & v & Hb)]; rewrite Ht, Hb in Hs; cbn [body_key body_value bindT] in Hs.
+  - inversion Hs; subst s'. apply invA_set_rl; auto. split_loc; loc_triv.
+    all: try (intros H; exfalso; apply H; exact Hq).
+    intros _. exists m. auto.
+  - destruct (body_ver (r_lastPutBody (rl s p))) as [lv|]; cbn [bindT] in Hs; [|discriminate].
+    inversion Hs; subst s'; clear Hs.
+    match goal with |- InvA (set_rl (set_fs ?s1 ?f) p ?l) =>
+      change (set_rl (set_fs s1 f) p l) with (set_fs (set_rl s1 p l) f) end.
+    apply invA_set_fs. apply invA_set_rl; auto. split_loc; loc_triv.
+    all: try (intros H; exfalso; apply H; exact Hq).
+    all: try (intros _; exists m; auto; fail).
+    eauto.
+Qed.
+
+Lemma invA_sndReplicaReqLoop : pcr s p = SndReplicaReqLoop -> step_sndReplicaReqLoop cfg ch s p = Ok s' -> InvA s'.
+Proof.
+  intros Epc Hs. unfold step_sndReplicaReqLoop in Hs.
+  destruct (r_req (rl s p)) as [m|]; cbn [bindT] in Hs; [|discriminate].
+  eapply (invA_sndLoop s p ch s' I Ap); [right; split; [reflexivity | split; reflexivity] | exact Epc | exact Hs].
+Qed.
+
+Lemma invA_sndSyncReqLoop : pcr s p = SndSyncReqLoop -> step_sndSyncReqLoop cfg ch s p = Ok s' -> InvA s'.
+Proof.
+  intros Epc Hs. unfold step_sndSyncReqLoop in Hs.
+  eapply (invA_sndLoop s p ch s' I Ap); [left; split; [reflexivity | split; reflexivity] | exact Epc | exact Hs].
+Qed.
+
+Lemma invA_rcvReplicaRespLoop : pcr s p = RcvReplicaRespLoop -> step_rcvReplicaRespLoop cfg ch s p = Ok s' -> InvA s'.
+Proof.
+  intros Epc Hs. unfold pcr in Epc.
+  destruct (a_loc s I p Ap) as (L1 & L2 & L3 & L4 & L5 & L6 & L7 & L8).
+  assert (Hq : p = ldr s).
+  { apply (nonbackup_is_ldr s p I Ap). unfold pcr. rewrite Epc. cbn. tauto. }
+  destruct L3 as (m0 & Hreq & Hm & Hss & Hqc); [rewrite Epc; exact Logic.I|].
+  assert (Hloc : forall s1 rs pc', queue (net s1 p REQ) = queue (net s p REQ) ->
+                 pc' = RcvReplicaRespLoop \/ pc' = SndResp ->
+                 locA s1 (ldr s) p (r_set_pc (r_set_rs (rl s p) rs) pc')).
+  { intros s1 rs pc' Hs1 [-> | ->]; split_loc; loc_triv.
+    all: try (intros H; exfalso; apply H; exact Hq).
+    all: try (intros _; exists m0; rewrite Hs1; auto). }
+  assert (Hcr : forall s1 l1 next, may_fail cfg ch s1 p l1 next = Ok s' -> pc_alive next = true ->
+                InvA (set_rl s1 p (r_set_pc l1 next)) -> InvA s').
+  { intros s1 l1 next Hm' Hok Iok. apply may_fail_cases in Hm'. destruct Hm' as [-> | ->]; [exact Iok|].
+    eapply invA_crash; [exact Iok | apply Ap | reflexivity | exact Hok]. }
+  unfold step_rcvReplicaRespLoop in Hs.
+  destruct (r_replicaSet (rl s p)) as [|x0 S0] eqn:ES.
+  { inversion Hs; subst s'. apply invA_set_rl; auto.
+    replace (rl s p) with (r_set_rs (rl s p) []) at 2 by (destruct (rl s p); cbn in *; subst; reflexivity).
+    apply Hloc; auto. }
+  destruct (ch_alt ch); cbn [negb] in Hs.
+  { dif Hs; [discriminate|]. dif Hs; [|discriminate].
+    apply (Hcr _ _ _ Hs eq_refl). apply invA_set_rl; auto; try (apply Hloc; auto). }
+  unfold link_recv in Hs. dif Hs; [discriminate|].
+  destruct (queue (net s p RESP)) as [|m rest] eqn:Eq; [discriminate|].
+  rewrite Hreq in Hs. cbn [bindT] in Hs. dif Hs; [discriminate|].
+  assert (Hen : enabled (net s p RESP) = true) by (apply negb_false_iff in E; exact E).
+  rewrite Hen in Hs.
+  apply (Hcr _ _ _ Hs eq_refl).
+  eapply invA_pop; eauto; try discriminate.
+Qed.
+
+Lemma invA_sndResp : pcr s p = SndResp -> step_sndResp cfg ch s p = Ok s' -> InvA s'.
+Proof.
+  intros Epc Hs. unfold pcr in Epc.
+  destruct (a_loc s I p Ap) as (L1 & L2 & L3 & L4 & L5 & L6 & L7 & L8).
+  destruct L3 as (m0 & Hreq & Hm & Hss & Hqc); [rewrite Epc; exact Logic.I|].
+  unfold step_sndResp in Hs. rewrite Hreq in Hs. cbn [bindT] in Hs.
+  destruct (r_respBody (rl s p)) as [rb|]; cbn [bindT] in Hs; [|discriminate].
+  destruct (r_respTyp (rl s p)) as [rt|]; cbn [bindT] in Hs; [|discriminate].
+  unfold link_send in Hs. simp_st. destruct (enabled (net s (m_from m0) RESP)) eqn:Een; [|discriminate].
+  inversion Hs; subst s'; clear Hs.
+  destruct Hm as (Hsrc & Hfrom & Hok).
+  assert (Hnr : ~ isrep (m_from m0)) by (unfold isrep; lia).
+  apply (invA_same_roles s); simp_st; try apply I; try reflexivity.
+  - intros r c0. unfold upd_net. destruct (Nat.eqb r (m_from m0) && chan_eqb c0 RESP) eqn:E; [|reflexivity].
+    apply andb_true_iff in E. destruct E as [E1 E2]. apply Nat.eqb_eq in E1. subst r. destruct c0; [discriminate|]. simp_st. rewrite Een. reflexivity.
+  - intros r. unfold pcr. simp_st. unfold updf. destruct (Nat.eqb r p) eqn:E; [|reflexivity].
+    apply Nat.eqb_eq in E. subst r. simp_st. rewrite Epc. reflexivity.
+  - intros r. unfold pcr. simp_st. unfold updf. destruct (Nat.eqb r p) eqn:E; [|reflexivity].
+    apply Nat.eqb_eq in E. subst r. simp_st. rewrite Epc. reflexivity.
+  - intros r Ar. assert (Hrm : r <> m_from m0) by (intros ->; apply Hnr; apply Ar).
+    destruct (Nat.eq_dec r p) as [->|Hne].
+    + rewrite updf_same. split.
+      * split_loc; loc_triv.
+      * eapply qA_frame; [apply (a_q s I p Ap)| |]; simp_st; rewrite upd_net_other by (left; exact Hrm); reflexivity.
+    + rewrite updf_other by exact Hne. split.
+      * eapply locA_frame; [apply (a_loc s I r Ar)|]. simp_st. intros _ H. rewrite upd_net_other by (left; exact Hrm). exact H.
+      * eapply qA_frame; [apply (a_q s I r Ar)| |]; simp_st; rewrite upd_net_other by (left; exact Hrm); reflexivity.
+Qed.
+
+End LABELS2.
+
+(* ------------------------------------------------------------------ failLabel *)
+Lemma invA_failLabel : forall s p ch s', InvA s -> isrep p -> pcr s p = FailLabel ->
+  step_failLabel cfg ch s p = Ok s' -> InvA s'.
+Proof.
+  intros s p ch s' I Hp Epc Hs. unfold step_failLabel in Hs.
+  assert (Es' : s' = set_rl (set_prim (set_fd s (updf (fdv s) p true)) (updf (prim (set_fd s (updf (fdv s) p true))) p false)) p
+                    (r_set_pc (rl s p) RDone)) by (inversion Hs; reflexivity).
+  clear Hs.
+  unfold pcr in Epc.
+  assert (Hnet : net s' = net s) by (subst s'; reflexivity).
+  assert (Hcin : cin s' = cin s) by (subst s'; reflexivity).
+  assert (Hcl : cl s' = cl s) by (subst s'; reflexivity).
+  assert (Hfd : forall r, fdv s' r = if Nat.eqb r p then true else fdv s r).
+  { intros r. subst s'. simp_st. unfold updf. destruct (Nat.eqb r p); reflexivity. }
+  assert (Hrl' : forall r, r <> p -> rl s' r = rl s r).
+  { intros r Hr. subst s'. simp_st. apply updf_other. exact Hr. }
+  assert (Hpc : forall r, pcr s' r = if Nat.eqb r p then RDone else pcr s r).
+  { intros r. subst s'. unfold pcr. simp_st. unfold updf. destruct (Nat.eqb r p); reflexivity. }
+  assert (Hal : forall r, alive s' r <-> alive s r).
+  { intros r. unfold alive. rewrite Hpc. destruct (Nat.eqb r p) eqn:E; [|tauto].
+    apply Nat.eqb_eq in E. subst r. unfold pcr. rewrite Epc. cbn. tauto. }
+  assert (Hnp : forall r, alive s r -> r <> p).
+  { intros r [_ Ha] ->. unfold pcr in Ha. rewrite Epc in Ha. discriminate. }
+  assert (Hprim : forall r, prim s' r = if Nat.eqb r p then false else prim s r).
+  { intros r. subst s'. simp_st. unfold updf. destruct (Nat.eqb r p); reflexivity. }
+  assert (Hrep : is_replica cfg p = true) by (apply isrep_iff; exact Hp).
+  clear Es'.
+  (* the new leader *)
+  assert (HL : forall r, alive s r -> ldr s <= ldr s' /\ (ldr s' <> ldr s -> p = ldr s) /\ ldr s' <> 0).
+  { intros r Ar. destruct (alive_ge_ldr s r I Ar) as [Hq0 Hqr].
+    destruct (ldr_nonzero s I Hq0) as (Hq1 & Hq2 & Hq3).
+    assert (Hr' : prim s' r = true).
+    { rewrite Hprim. destruct (Nat.eqb r p) eqn:E; [apply Nat.eqb_eq in E; exfalso; exact (Hnp r Ar E)|].
+      apply (prim_true_iff s r I). split; [apply Ar | apply (alive_not_done s r Ar)]. }
+    destruct (Nat.eq_dec (ldr s') 0) as [E0|N0].
+    { exfalso. assert (prim s' r = false); [|congruence].
+      apply (hd_filter_seq_zero (prim s') (NR cfg) 1); [lia | exact E0 | destruct Ar as [[? ?] _]; lia]. }
+    destruct (leader_spec cfg s' (ldr s') eq_refl N0) as (Hn1 & Hn2 & Hn3).
+    rewrite Hprim in Hn2. destruct (Nat.eqb (ldr s') p) eqn:E; [discriminate|]. apply Nat.eqb_neq in E.
+    assert (Hge : ldr s <= ldr s').
+    { destruct (le_lt_dec (ldr s) (ldr s')) as [H|H]; [exact H|]. exfalso.
+      assert (Hd : pcr s (ldr s') = RDone) by (apply Hq3; [unfold isrep; lia | exact H]).
+      apply (prim_true_iff s _ I) in Hn2. destruct Hn2 as [_ Hn2]. contradiction. }
+    split; [exact Hge|]. split; [|exact N0]. intros Hne.
+    destruct (Nat.eq_dec p (ldr s)) as [Ep|Np]; [exact Ep|]. exfalso. apply Hne.
+    unfold ldr at 1. apply leader_first; [exact Hq1 | |].
+    - rewrite Hprim. destruct (Nat.eqb (ldr s) p) eqn:E2; [apply Nat.eqb_eq in E2; congruence|].
+      apply (prim_true_iff s _ I). split; assumption.
+    - intros r0 Hr0. rewrite Hprim. destruct (Nat.eqb r0 p); [reflexivity|].
+      rewrite (a_prim s I). rewrite (Hq3 r0); [apply andb_false_r | unfold isrep in *; lia | lia]. }
+  constructor.
+  - intros r c Hr. rewrite Hnet, Hpc, (a_en_r s I r c Hr).
+    destruct (Nat.eqb r p) eqn:E; [|reflexivity]. apply Nat.eqb_eq in E. subst r. unfold pcr. rewrite Epc. reflexivity.
+  - intros n c Hn. rewrite Hnet. apply (a_en_c s I n c Hn).
+  - intros r. rewrite Hpc, Hfd. destruct (Nat.eqb r p) eqn:E.
+    + apply Nat.eqb_eq in E. subst r. rewrite Hrep. reflexivity.
+    + apply (a_fd s I).
+  - intros r. rewrite Hpc, Hprim. destruct (Nat.eqb r p) eqn:E.
+    + apply Nat.eqb_eq in E. subst r. rewrite Hrep. reflexivity.
+    + apply (a_prim s I).
+  - rewrite Hcin. apply (a_cin s I).
+  - rewrite Hcl. apply (a_cmsg s I).
+  - intros r Ar. apply Hal in Ar. destruct (HL r Ar) as (Hge & Hch & Hn0).
+    rewrite (Hrl' r (Hnp r Ar)). unfold locA. rewrite Hnet. destruct (a_loc s I r Ar) as (L1 & L2 & L3 & L4 & L5 & L6 & L7 & L8).
+    assert (Hrq : r <> ldr s' -> r <> ldr s).
+    { intros H1 H2. destruct (Nat.eq_dec (ldr s') (ldr s)) as [E|N]; [congruence|].
+      apply (Hnp r Ar). rewrite H2. symmetry. apply Hch. exact N. }
+    split_loc; auto.
+    + intros H. destruct (L2 H) as (m & Hm1 & Hm2). exists m. split; [exact Hm1 | eapply pmA_mono; eauto].
+  - intros r Ar. apply Hal in Ar. destruct (HL r Ar) as (Hge & Hch & Hn0).
+    assert (Hrq : r <> ldr s' -> r <> ldr s).
+    { intros H1 H2. destruct (Nat.eq_dec (ldr s') (ldr s)) as [E|N]; [congruence|].
+      apply (Hnp r Ar). rewrite H2. symmetry. apply Hch. exact N. }
+    destruct (a_q s I r Ar) as ((P & C & E & HP & HC & HCq) & Rn & Rl). unfold qA. rewrite Hnet.
+    split; [|split].
+    + exists P, C. split; [exact E|]. split; [|split; [exact HC|]].
+      * eapply Forall_impl; [|exact HP]. intros m Hm. eapply pmA_mono; eauto.
+      * intros Hc. specialize (HCq Hc). destruct (Nat.eq_dec (ldr s') (ldr s)) as [E2|N]; [congruence|].
+        exfalso. apply (Hnp r Ar). rewrite HCq. symmetry. apply Hch. exact N.
+    + intros H. apply Rn. apply Hrq. exact H.
+    + intros H. destruct (Nat.eq_dec (ldr s') (ldr s)) as [E2|N].
+      * rewrite E2. apply Rl. congruence.
+      * rewrite Rn; [constructor|]. intros H2. apply (Hnp r Ar). rewrite H2. symmetry. apply Hch. exact N.
+Qed.
+
+(* ------------------------------------------------------------------ client steps *)
+Lemma invA_client_step : forall s p ch s', InvA s -> NR cfg < p ->
+  step_client cfg ch s p = Ok s' -> InvA s'.
+Proof.
+  intros s p ch s' I Hp Hs.
+  assert (Hnr : ~ isrep p) by (unfold isrep; lia).
+  (* all client steps: rl, fd, prim unchanged; net changes only at the leader's request queue (append of a
+     well-formed client request) or at the client's own response queue *)
+  assert (F : forall s1,
+     (forall r c, enabled (net s1 r c) = enabled (net s r c)) ->
+     fdv s1 = fdv s -> prim s1 = prim s -> rl s1 = rl s ->
+     Forall input_ok (cin s1) -> (forall c m, c_msg (cl s1 c) = Some m -> input_ok m) ->
+     (forall r, isrep r -> queue (net s1 r RESP) = queue (net s r RESP)) ->
+     (forall r, isrep r -> queue (net s1 r REQ) = queue (net s r REQ) \/
+                           (r = ldr s /\ exists m, creq m /\ queue (net s1 r REQ) = queue (net s r REQ) ++ [m])) ->
+     InvA s1).
+  { intros s1 Hen Hfd Hpr Hrl Hcin Hcm Hresp Hreq.
+    apply (invA_same_roles s); auto; try (intros; rewrite ?Hfd, ?Hpr; reflexivity);
+      try (intros r; unfold pcr; rewrite Hrl; reflexivity).
+    intros r Ar. rewrite Hrl. assert (Hr : isrep r) by apply Ar. split.
+    - eapply locA_frame; [apply (a_loc s I r Ar)|]. intros _ H.
+      destruct (Hreq r Hr) as [E | (_ & m & Hm & E)]; rewrite E; [exact H|].
+      apply Forall_app. split; [exact H | constructor; [exact Hm | constructor]].
+    - destruct (a_q s I r Ar) as ((P & C & E & HP & HC & HCq) & Rn & Rl). unfold qA. rewrite (Hresp r Hr).
+      split; [|split; assumption].
+      destruct (Hreq r Hr) as [E1 | (Hrq & m & Hm & E1)]; rewrite E1.
+      + exists P, C. auto.
+      + exists P, (C ++ [m]). rewrite E, app_assoc. split; [reflexivity|]. split; [exact HP|].
+        split; [apply Forall_app; split; [exact HC | constructor; [exact Hm | constructor]] | intros _; exact Hrq]. }
+  unfold step_client in Hs. destruct (c_pc (cl s p)) eqn:Epc.
+  - (* clientLoop *)
+    unfold step_clientLoop in Hs. destruct (cin s) as [|m rest] eqn:Ecin; [discriminate|].
+    inversion Hs; subst s'; clear Hs.
+    pose proof (a_cin s I) as Hc. rewrite Ecin in Hc. inversion Hc; subst.
+    apply F; simp_st; auto.
+    intros c m0. unfold updf. destruct (Nat.eqb c p); simp_st; [|apply (a_cmsg s I)].
+    intros E. inversion E; subst. assumption.
+  - (* sndReq *)
+    unfold step_sndReq in Hs.
+    destruct (negb (Nat.eqb (leader cfg s) 0)) eqn:E0.
+    2:{ inversion Hs; subst s'. apply F; simp_st; auto; try apply I.
+        intros c m0. unfold updf. destruct (Nat.eqb c p); simp_st; apply (a_cmsg s I). }
+    destruct (ch_alt ch); cbn [negb] in Hs.
+    { destruct (fdv s (leader cfg s)); [|discriminate]. inversion Hs; subst s'. apply F; simp_st; auto; try apply I.
+      intros c m0. unfold updf. destruct (Nat.eqb c p); simp_st; apply (a_cmsg s I). }
+    destruct (c_msg (cl s p)) as [m|] eqn:Em; cbn [bindT] in Hs; [|discriminate].
+    unfold link_send in Hs. destruct (enabled (net s (leader cfg s) REQ)) eqn:Een; [|discriminate].
+    inversion Hs; subst s'; clear Hs.
+    apply F; simp_st; auto; try apply I.
+    + intros r c0. unfold upd_net. destruct (Nat.eqb r (leader cfg s) && chan_eqb c0 REQ) eqn:E; [|reflexivity].
+      apply andb_true_iff in E. destruct E as [E1 E2]. apply Nat.eqb_eq in E1. subst r. destruct c0; [|discriminate]. simp_st. rewrite Een. reflexivity.
+    + intros c m0. unfold updf. destruct (Nat.eqb c p); simp_st; [|apply (a_cmsg s I)].
+      intros E. inversion E; subst m0. apply (a_cmsg s I p). exact Em.
+    + intros r Hr. rewrite upd_net_other by (right; discriminate). reflexivity.
+    + intros r Hr. destruct (Nat.eq_dec r (leader cfg s)) as [->|Hne].
+      * right. split; [reflexivity|]. eexists. split; [|rewrite upd_net_same; reflexivity].
+        unfold creq. simp_st. split; [reflexivity|]. split; [exact Hp|].
+        pose proof (a_cmsg s I p m Em) as Hok. unfold input_ok in *. simp_st. exact Hok.
+      * left. rewrite upd_net_other by (left; exact Hne). reflexivity.
+  - (* rcvResp *)
+    unfold step_rcvResp in Hs. destruct (ch_alt ch); cbn [negb] in Hs.
+    { dif Hs; [|discriminate]. inversion Hs; subst s'. apply F; simp_st; auto; try apply I.
+      intros c m0. unfold updf. destruct (Nat.eqb c p); simp_st; apply (a_cmsg s I). }
+    unfold link_recv in Hs. dif Hs; [discriminate|].
+    destruct (queue (net s p RESP)) as [|r q] eqn:Eq; [discriminate|].
+    assert (Hen : enabled (net s p RESP) = true) by (apply negb_false_iff in E; exact E).
+    rewrite Hen in Hs.
+    assert (G : forall l o h, InvA (mkSt (upd_net (net s) p RESP (mkLink q true)) (fdv s) (fsv s) (prim s) (cin s) o (rl s)
+                                         (updf (cl s) p (c_set_pc (cl s p) l)) h)).
+    { intros l o h. apply F; simp_st; auto; try apply I.
+      - intros r0 c0. unfold upd_net. destruct (Nat.eqb r0 p && chan_eqb c0 RESP) eqn:E1; [|reflexivity].
+        apply andb_true_iff in E1. destruct E1 as [E1 E2]. apply Nat.eqb_eq in E1. subst r0. destruct c0; [discriminate|]. simp_st. rewrite Hen. reflexivity.
+      - intros c m0. unfold updf. destruct (Nat.eqb c p); simp_st; apply (a_cmsg s I).
+      - intros r0 Hr0. rewrite upd_net_other; [reflexivity|]. left. intros ->. contradiction.
+      - intros r0 Hr0. left. rewrite upd_net_other; [reflexivity|]. right. discriminate. }
+    dif Hs.
+    + inversion Hs; subst s'. apply G.
+    + destruct (c_msg (cl s p)) as [m|]; cbn [bindT] in Hs; [|discriminate].
+      destruct (cm_typ m); try discriminate;
+        (dif Hs; [discriminate|]);
+        destruct (body_content (m_body r)); cbn [bindT] in Hs; try discriminate;
+        inversion Hs; subst s'; apply G.
+  - discriminate.
+Qed.
+
+(* ------------------------------------------------------------------ every step *)
+Lemma invA_step : forall s e s', InvA s -> step cfg s e = Ok s' -> InvA s'.
+Proof.
+  intros s [p ch] s' I Hs. unfold step in Hs.
+  destruct (is_replica cfg p) eqn:Er.
+  - apply isrep_iff in Er. unfold step_replica in Hs.
+    destruct (r_pc (rl s p)) eqn:Epc;
+      try (assert (Ap : alive s p) by (split; [exact Er | unfold pcr; rewrite Epc; reflexivity])).
+    + eapply invA_replicaLoop; eauto.
+    + eapply invA_syncPrimary; eauto.
+    + eapply invA_sndSyncReqLoop; eauto.
+    + eapply invA_rcvSyncRespLoop; eauto.
+    + eapply invA_rcvMsg; eauto.
+    + eapply invA_handleBackup; eauto.
+    + eapply invA_handlePrimary; eauto.
+    + eapply invA_sndReplicaReqLoop; eauto.
+    + eapply invA_rcvReplicaRespLoop; eauto.
+    + eapply invA_sndResp; eauto.
+    + eapply invA_failLabel; eauto.
+    + discriminate.
+  - destruct (is_client cfg p) eqn:Ec; [|discriminate].
+    apply (invA_client_step s p ch s' I); [apply is_client_true in Ec; lia | exact Hs].
+Qed.
+
+Lemma invA_reachable : forall input s, Forall input_ok input -> reachable cfg input s -> InvA s.
+Proof.
+  intros input s Hin Hr. induction Hr.
+  - apply init_invA. exact Hin.
+  - eapply invA_step; eauto.
+Qed.
 
 End CRA.
